@@ -179,6 +179,7 @@ inline void GenZoo(Source& s, Lane l, Zoo& z, const ZooGenCfg& g)
 		if (g.nonEmptyStrings) { if (r.name.empty()) r.name = "n"; if (r.wide.empty()) r.wide = u"n"; }
 		z.rows.push_back(r);
 	}
+	z.lastTup = std::make_tuple(ZInt(s, l), ZStr(s, l, g) + "-last");
 	if (s.chance(l, 1, 2)) z.optDur = std::chrono::seconds(GenSigned(s, l, 40));
 	if (s.chance(l, 1, 2)) z.uDur = std::make_unique<std::chrono::seconds>(GenSigned(s, l, 40));
 	if (g.altChronoOneIn && (g.archive == A_JSON || g.archive == A_XML) && s.chance(l, 1, g.altChronoOneIn))
@@ -309,6 +310,7 @@ inline std::map<std::string, std::string> ZooFields(const Zoo& z, bool csv)
 	{ std::string r = "["; for (auto& o : z.vobj) r += std::to_string(o.a) + "/" + HexStr(o.b) + ","; f["vobj"] = r + "]"; }
 	{ std::string r; HexAppend(r, z.bin.data(), z.bin.size()); f["bin"] = r; }
 	{ std::string r = std::to_string(z.attrI) + "/" + std::to_string(z.attrU64) + "/" + std::to_string(z.attrI64) + "/" + (z.attrB ? "1" : "0") + "/"; HexAppend(r, &z.attrF, 8); f["attrs"] = r + "/" + HexStr(z.attrS); }
+	f["lastTup"] = std::to_string(std::get<0>(z.lastTup)) + "/" + HexStr(std::get<1>(z.lastTup));
 	f["optDur"] = z.optDur ? std::to_string(z.optDur->count()) : "null";
 	f["uDur"] = z.uDur ? std::to_string(z.uDur->count()) : "null";
 	auto innerRepr = [](const Inner* in) { return in ? std::to_string(in->a) + "/" + HexStr(in->b) : std::string("null"); };
